@@ -218,7 +218,9 @@ def _extract_one(u, extra, roots, use_cache):
         cmd = [SCV_BIN, "--out", tmp]
         for r in roots:
             cmd += ["--root", r]
-        cmd += [u["file"], "--", "-resource-dir", RESOURCE_DIR] + u["flags"] + extra + ["-w"]
+        # warnings are off unless a rule asks for specific ones (wflags are part of `extra`)
+        quiet = [] if any(x.startswith("-W") for x in extra) else ["-w"]
+        cmd += [u["file"], "--", "-resource-dir", RESOURCE_DIR] + u["flags"] + extra + quiet
         p = subprocess.run(cmd, capture_output=True, text=True)
         if not os.path.exists(tmp):
             raise AnalysisBroken("scv failed on %s: %s" % (u["file"], (p.stderr or "")[-400:]))
